@@ -133,8 +133,13 @@ impl ReqSocket {
 //@|            // otherwise exactly one item is read from THAT peer, and it alone decides
 //@|            old(self).current_request is Some && old(self).backend.peers@.contains_key(old(self).current_request->Some_0)
 //@|                ==> req_received_from(*old(self), *final(self), r, old(self).current_request->Some_0),
-//@ await *
+//@ await 1
 //@|        self.current_request == old(self).current_request
+//@|        && self.backend.peers@ == old(self).backend.peers@ && self.backend.round_robin@ == old(self).backend.round_robin@
+//@ await 2
+//@|        self.current_request == old(self).current_request
+//@ await-try 2
+//@|        self.backend.peers@.dom() =~= old(self).backend.peers@.dom()
 //@ end
 }
 
@@ -284,6 +289,7 @@ impl RepSocket {
 //@|                forall|i: int| old(self).fair_queue.log@.len() <= i < self.fair_queue.log@.len() ==> skipped_item(#[trigger] self.fair_queue.log@[i]),
 //@ await *
 //@|        self.envelope == old(self).envelope && self.current_request == old(self).current_request
+//@|        && self.backend.peers@ == old(self).backend.peers@
 //@|        && forall|i: int| old(self).fair_queue.log@.len() <= i < self.fair_queue.log@.len() ==> skipped_item(#[trigger] self.fair_queue.log@[i])
 //@ end
 }
